@@ -105,6 +105,7 @@ func genC06(t *rapid.T) c06Case {
 	kind := rapid.SampledFrom(c06Targets).Draw(t, "target")
 	target := drawOp(t, OpWeights{kind: 1}, "p0/target", hs, c.Cfg.Exact)
 	c.Progs = []Prog{{Auto: rapid.Bool().Draw(t, "auto"), Ops: []POp{{Kind: KOpen}, target}}}
+	c.YieldOnWrite = rapid.IntRange(0, 2).Draw(t, "yieldOnWrite") == 2
 	cc := c06Case{Base: c}
 	if rapid.IntRange(0, 2).Draw(t, "survivor") == 0 {
 		cc.Survivor = true
